@@ -43,7 +43,7 @@ def boundary_ns(isa, ty):
     V = vec_elems(isa, ty)
     s = set()
     for v in {V, max(V // 2, 1)}:
-        s |= {v - 1, v, v + 1, 2 * v - 1, 2 * v, 2 * v + 1, 3 * v, 3 * v + 1, 4 * v - 1, 4 * v, 4 * v + 1, 5 * v - 1, 5 * v, 5 * v + 1}
+        s |= {v - 1, v, v + 1, 2 * v - 1, 2 * v, 2 * v + 1, 3 * v, 3 * v + 1, 4 * v - 1, 4 * v, 4 * v + 1, 5 * v - 1, 5 * v, 5 * v + 1, 5 * v + 2}
     return sorted(x for x in s if 1 <= x <= 41)
 
 def cases(tier, seed):
